@@ -1046,6 +1046,98 @@ func runC14(res *lp.Result) {
 				for j, rp := range reps {
 					r.roundTrip(vc, rp, j == 0)
 				}
+				// … and into a destination that is IN USE: pre-filled with the null-free sample of the same shape; a null must
+				// reset its slot (a stale element, field or pointer showing through means the null did not survive)
+				for _, t := range goTypes {
+					if hasCode(dt, primitive.DataTypeCodeMap) {
+						break // a map destination in use keeps its old entries (pointer keys never coincide): not a matter of nulls
+					}
+					src, ok := toGo(nv.c, dt, t)
+					pre, ok2 := toGo(sample, dt, t)
+					if !ok || !ok2 || isPtrRep(t) {
+						continue
+					}
+					var enc []byte
+					var err error
+					if p := guard(func() { enc, err = codec.Encode(src.Interface(), ver) }); p != nil || err != nil {
+						continue // judged by the round trips above
+					}
+					id2 := fmt.Sprintf("%s decoded into a %s holding %s", id, destName(t), render(sample))
+					res.Case(id2, true)
+					res.Count("check/null-into-used-destination")
+					dest, result := destFor(t)
+					reflect.ValueOf(dest).Elem().Set(pre)
+					var derr error
+					if p := guard(func() { _, derr = codec.Decode(enc, dest, ver) }); p != nil {
+						r.rep.violation("codec panics: Decode: "+p.words, id2, p.full+" @ "+p.frame)
+						continue
+					}
+					if derr != nil {
+						r.rep.violation("value with a null inside refused when decoded into a destination in use: "+kindName(dt), id2, derr.Error())
+						continue
+					}
+					back, ferr := fromGo(result(), dt)
+					if ferr != nil || render(back) != render(nv.c) {
+						r.rep.violation("a null "+nv.kind+" decoded into a destination in use leaves the old content in place: "+kindName(dt)+" into "+repName(dt, destName(t)), id2,
+							fmt.Sprint("destination now holds ", render(back), ", the bytes denote ", render(nv.c), " ", ferr))
+					}
+				}
+			}
+		}
+		// a UDT value that carries fewer fields than its type (written before a field was added): the missing trailing fields
+		// are null — in a fresh destination and in one that is in use
+		if u, ok := dt.(*datatype.UserDefined); ok && len(u.FieldTypes) >= 2 && sample != nil && len(sample.elems) == len(u.FieldTypes) {
+			ver := versionFor(2 + ti%4)
+			full, _, okEnc := specEncode(sample, dt, ver)
+			for keep := 1; okEnc && keep < len(u.FieldTypes); keep++ {
+				off := 0
+				for f := 0; f < keep && off+4 <= len(full); f++ {
+					n := int(int32(binary.BigEndian.Uint32(full[off:])))
+					off += 4
+					if n > 0 {
+						off += n
+					}
+				}
+				short := full[:off]
+				want := &cv{k: cvUdt, elems: append(append([]*cv{}, sample.elems[:keep]...), make([]*cv, len(u.FieldTypes)-keep)...)}
+				for _, t := range append([]reflect.Type{tIface}, goTypes...) {
+					if isPtrRep(t) {
+						continue
+					}
+					if _, holds := toGo(want, dt, t); t != tIface && !holds {
+						continue
+					}
+					for _, used := range []bool{false, true} {
+						id := fmt.Sprintf("C14 %s %s value with only %d of %d fields, bytes %s, into a %s (in use: %v)", verName(ver), tn, keep, len(u.FieldTypes), hexOrMark(short), destName(t), used)
+						res.Case(id, true)
+						res.Count("check/udt-fewer-fields")
+						dest, result := destFor(t)
+						if used {
+							if t == tIface {
+								continue
+							}
+							pre, _ := toGo(sample, dt, t)
+							reflect.ValueOf(dest).Elem().Set(pre)
+						}
+						var derr error
+						if p := guard(func() { _, derr = codec.Decode(short, dest, ver) }); p != nil {
+							r.rep.violation("codec panics: Decode: "+p.words, id, p.full+" @ "+p.frame)
+							continue
+						}
+						if derr != nil {
+							r.rep.violation("UDT value with fewer fields than its type is refused", id, derr.Error())
+							continue
+						}
+						got := result()
+						if t == tIface {
+							got = got.Elem()
+						}
+						back, ferr := fromGo(got, dt)
+						if ferr != nil || render(back) != render(want) {
+							r.rep.violation("the missing trailing fields of a UDT value are not decoded as nulls", id, fmt.Sprint("destination holds ", render(back), ", expected ", render(want), " ", ferr))
+						}
+					}
+				}
 			}
 		}
 	}
